@@ -88,7 +88,19 @@ class History:
         dataset.time = self.clock
         self.capacity = rng.choice([4, 8, 16, 32, 64, 128, 256])
         self.prefix = prefix
-        self.m = dataset.Manager(prefix, self.capacity)
+        # configuration class: the host offers less than the configured capacity (a container with a small /dev/shm): the store
+        # trims itself to what is available, and that is the capacity every clause speaks about
+        configured = self.capacity
+        real_get_capacity = dataset.get_capacity
+        if rng.random() < 0.12:
+            avail = rng.choice([configured // 2, max(1, configured - 1), max(1, configured // 4)]) or 1
+            dataset.get_capacity = lambda: avail
+            self.capacity = min(configured, avail)
+            col.count("histories_with_capacity_trimmed_to_available")
+        try:
+            self.m = dataset.Manager(prefix, configured)
+        finally:
+            dataset.get_capacity = real_get_capacity
         self.m.disk.atexit()
         self.m.disk = ControlledDisk(disk.Disk)
         self.m.disk.on_submit = self.on_job_submitted
